@@ -7,6 +7,7 @@ package main
 
 import (
 	"context"
+	crand "crypto/rand"
 	"fmt"
 	"sync"
 	"sync/atomic"
@@ -19,6 +20,7 @@ import (
 	cid "github.com/ipfs/go-cid"
 	ipns "github.com/ipfs/go-ipns"
 	libp2p "github.com/libp2p/go-libp2p"
+	crypto "github.com/libp2p/go-libp2p-core/crypto"
 	dht "github.com/libp2p/go-libp2p-kad-dht"
 	dual "github.com/libp2p/go-libp2p-kad-dht/dual"
 	pubsub "github.com/libp2p/go-libp2p-pubsub"
@@ -31,7 +33,14 @@ import (
 func soakCRDT(secs int) {
 	s := newSoak("crdt")
 	ctx := context.Background()
-	h, err := libp2p.New(ctx, libp2p.ListenAddrStrings("/ip4/127.0.0.1/tcp/0"))
+	// an Ed25519 identity: pubsub signs every broadcast, RSA signing under -race is very slow
+	priv, _, err := crypto.GenerateEd25519Key(crand.Reader)
+	if err != nil {
+		fmt.Println("# inconclusive crdt: cannot generate a key:", err)
+		s.finish()
+		return
+	}
+	h, err := libp2p.New(ctx, libp2p.Identity(priv), libp2p.ListenAddrStrings("/ip4/127.0.0.1/tcp/0"))
 	if err != nil {
 		fmt.Println("# inconclusive crdt: cannot create a libp2p host:", err)
 		s.finish()
